@@ -6,7 +6,7 @@ from ..build import Unit, ToolError, ensure_generated, VERIF, CACHE
 from ..engine import Contract, BUF, OBJ, SET, ASSUME
 from ..gendriver import generate, Gen
 from ..oracle import Schema, flat
-from ..sbe import PRIMS, bits
+from ..sbe import PRIMS, bits, load
 from ..views import V
 from .. import corpus
 
@@ -15,14 +15,10 @@ GH_N = [("unsigned long", "sbv_n")]
 EXPLANATION = "Generated-code obligations are translation validation per corpus schema: the contract of each generated accessor is computed from the XML by sbv/oracle.py."
 
 
-def load(spec):
-    return 0
-
-
 def hdr_field(sch, enc, name, base):
     """C expression reading scalar member `name` of header-like composite `enc` located at pointer expression `base`"""
     off, prim = sch.header_member(enc, name)
-    return "SPEC_LOAD(%s + %d, %d, %d)" % (base, off, PRIMS[prim]["size"], 1 if sch.big_endian else 0)
+    return load("%s + %d" % (base, off), PRIMS[prim]["size"], 1 if sch.big_endian else 0)
 
 
 def level_geometry(sch, li, vw):
@@ -72,7 +68,7 @@ def contracts_for_schema(cs, tier):
                 A = base + m["offset"]
                 if e.kind in ("scalar", "enum", "set"):
                     w = PRIMS[e.prim]["size"]
-                    post.append(("%s-decodes-schema-offset-%d" % (m["name"], A), "RET.v%d == SPEC_LOAD(%s + %d, %d, %d)" % (i, vw.begin, A, w, be)))
+                    post.append(("%s-decodes-schema-offset-%d" % (m["name"], A), "RET.v%d == %s" % (i, load("%s + %d" % (vw.begin, A), w, be))))
                     need = max(need, A + w)
                 else:
                     post.append(("%s-view-at-schema-offset-%d" % (m["name"], A), "RET.v%d.begin == %s + %d && RET.v%d.end == %s" % (i, vw.begin, A, i, vw.end)))
